@@ -202,20 +202,17 @@ Section L1D.
       let ys := map (fun ox => match ox with Some x => dget x (data s) | None => None end) xs in
       L (map (option_map (fun x => div x (sx s))) xs) (map (option_map (scale_y s)) ys).
 
-  (* the walk of _update_interpolated_loss_in_interval over neighbors_combined;
-     [fuel] bounds the walk by the number of combined points *)
-  Fixpoint walk (fuel : nat) (a xr : num) (loss dx : num) (keys : list num) (m : list (ival * num))
+  (* the walk of _update_interpolated_loss_in_interval over neighbors_combined:
+     "a = x_left; while b != x_right: b = right neighbour of a; set (a, b); a = b".
+     Written as a fold over the consecutive pairs (p, q) of the combined points
+     with x_left <= p < x_right, which is the same set of assignments whenever
+     x_left and x_right are combined points (always, since real points are
+     combined points; the code would raise otherwise). *)
+  Definition walk (a xr : num) (loss dx : num) (keys : list num) (m : list (ival * num))
     : list (ival * num) :=
-    match fuel with
-    | 0 => m
-    | S f =>
-        match find_right a keys with
-        | None => m
-        | Some b =>
-            let m' := lset (a, b) (div (mul (sub b a) loss) dx) m in
-            if eqb b xr then m' else walk f b xr loss dx keys m'
-        end
-    end.
+    fold_left (fun m pq => if leb a (fst pq) && ltb (fst pq) xr
+                           then lset pq (div (mul (sub (snd pq) (fst pq)) loss) dx) m else m)
+              (pairs keys) m.
 
   Definition with_los (s : st) (l lc : list (ival * num)) : st :=
     mk (data s) (pend s) (nb s) (nbc s) l lc (bbx s) (bby s) (sx s) (sy s) (osy s) (mgrx s).
@@ -224,7 +221,7 @@ Section L1D.
     let '(a, b) := iv in
     let loss := get_loss s a b in
     with_los s (lset (a, b) loss (los s))
-             (walk (length (nbc s)) a b loss (sub b a) (nbc s) (losc s)).
+             (walk a b loss (sub b a) (nbc s) (losc s)).
 
   Definition set_opt (a b : option num) (v : num) (m : list (ival * num)) : list (ival * num) :=
     match a, b with Some a, Some b => lset (a, b) v m | _, _ => m end.
